@@ -47,9 +47,16 @@ func main() {
 		selftest = flag.Bool("selftest", false, "run the sensitivity mutants of -property (or of all properties) and report caught/missed")
 		bfuzz    = flag.Bool("benignfuzz", false, "behaviour-preserving transformation sweep: every new finding is a false alarm")
 		bfOnly   = flag.String("benignfuzz-file", "", "restrict -benignfuzz to files whose path contains this string")
+		genKnown = flag.Bool("gen-known", false, "internal: print the declaration keys of the tree (known_funcs.txt)")
+		noNorm   = flag.Bool("no-normalise", false, "internal: skip the helper normalisation pre-pass")
 		ovl      = flag.String("overlay", "", "internal: <repo file>=<replacement file> (used by -benignfuzz)")
 	)
 	flag.Parse()
+	if *genKnown {
+		genKnownFuncs(*repo)
+		return
+	}
+	skipNormalise = *noNorm
 	verifDirGlobal = *verif
 	start := time.Now()
 	seed := 0
@@ -109,6 +116,10 @@ func main() {
 			fmt.Printf("VIOLATION property=%s replay=%s\n", *prop, "none:load-failure")
 		}
 		os.Exit(1)
+	}
+	if n := w.Normalised; n != nil {
+		fmt.Printf("NORMALISED: %d function(s) the pinned tree does not have: %s; inlined calls: %d %v; left as written: %d %v\n",
+			len(n.NewFuncs), strings.Join(n.NewFuncs, ", "), len(n.Inlined), n.Inlined, len(n.Kept), n.Kept)
 	}
 	if *list {
 		for _, f := range w.Funcs {
